@@ -6,6 +6,7 @@ import (
 	"math/rand"
 	"os"
 	"sort"
+	"strconv"
 	"strings"
 	"testing"
 	"time"
@@ -41,9 +42,11 @@ type rlCfg struct {
 	SQ    int // WriteQLen
 	RQ    int // ReadQLen (respondent)
 	Steps []string
+	Lazy  bool // contexts are opened when first used (in the middle of the traffic) instead of at the start
 }
 
 type rlScn struct {
+	open  func(i int) // opens context i if it is not open yet
 	s     *sim.S
 	cfg   rlCfg
 	proto protocol.Protocol
@@ -108,18 +111,40 @@ func (c *rlScn) snap() {
 		cs = append(cs, map[string]interface{}{"closed": closed, "rw": rw, "hasbt": hasbt, "bt": words, "rp": p})
 	}
 	var closed bool
+	// contexts not opened yet do not exist in the library: they are reported as what a new context must be
+	var have []protocol.Context
+	var idx []int
+	for i, pc := range c.pctxs {
+		if i == 0 || pc != nil {
+			have = append(have, pc)
+			idx = append(idx, i)
+		}
+	}
+	type cst struct {
+		closed, rw, hasbt bool
+		bt                []byte
+		rp                uint32
+	}
+	got := map[int]cst{}
 	if c.cfg.Kind == "rep" {
-		sn := rep.VerifSnapshot(c.proto, c.pctxs)
+		sn := rep.VerifSnapshot(c.proto, have)
 		ttl, rq, closed = sn.TTL, sn.RecvQ, sn.Closed
-		for _, x := range sn.Ctxs {
-			add(x.Closed, x.RecvWait, x.HasBT, x.Backtrace, x.RecvPipe)
+		for k, x := range sn.Ctxs {
+			got[idx[k]] = cst{x.Closed, x.RecvWait, x.HasBT, x.Backtrace, x.RecvPipe}
 		}
 	} else {
-		sn := respondent.VerifSnapshot(c.proto, c.pctxs)
+		sn := respondent.VerifSnapshot(c.proto, have)
 		ttl, rq, closed = sn.TTL, sn.RecvQ, sn.Closed
-		for _, x := range sn.Ctxs {
-			add(x.Closed, x.RecvWait, x.HasBT, x.Backtrace, x.RecvPipe)
+		for k, x := range sn.Ctxs {
+			got[idx[k]] = cst{x.Closed, x.RecvWait, x.HasBT, x.Backtrace, x.RecvPipe}
 		}
+	}
+	for i := range c.pctxs {
+		x, ok := got[i]
+		if !ok {
+			x = cst{closed: closed} // not open yet: empty, and closed once the socket is
+		}
+		add(x.closed, x.rw, x.hasbt, x.bt, x.rp)
 	}
 	kv := []interface{}{"closed", closed, "ttl", ttl, "recvq", rq}
 	for i, x := range cs {
@@ -198,6 +223,7 @@ func (c *rlScn) step(st string) {
 		i := ci(arg(1))
 		fn := c.sock.RecvMsg
 		if i > 0 {
+			c.open(i)
 			fn = c.ctxs[i].RecvMsg
 		}
 		s.Call(s.Thread(), "recv", c.cname(i), nil, func() []interface{} {
@@ -218,6 +244,7 @@ func (c *rlScn) step(st string) {
 		i := ci(arg(1))
 		fn := c.sock.SendMsg
 		if i > 0 {
+			c.open(i)
 			fn = c.ctxs[i].SendMsg
 		}
 		c.nrep++
@@ -228,6 +255,12 @@ func (c *rlScn) step(st string) {
 			err := appSend(s, m, fn)
 			return []interface{}{"r", err}
 		})
+	case "rq":
+		// ReadQLen changed (RESPONDENT; the scenarios do it when nothing is queued)
+		n, _ := strconv.Atoi(arg(1))
+		if err := c.sock.SetOption(mangos.OptionReadQLen, n); err == nil {
+			s.Rec.Emit("setrq", "n", n)
+		}
 	case "adv":
 		d, _ := time.ParseDuration(arg(1))
 		s.Adv(d)
@@ -236,10 +269,14 @@ func (c *rlScn) step(st string) {
 	case "cclose":
 		i := ci(arg(1))
 		if i > 0 {
+			c.open(i)
 			cx := c.ctxs[i]
 			s.Call(s.Thread(), "cclose", c.cname(i), nil, func() []interface{} { return []interface{}{"r", cx.Close()} })
 		}
 	case "sclose":
+		for i := 1; i < len(c.ctxs); i++ {
+			c.open(i) // (a context cannot be opened on a closed socket: the ones still to come are opened now)
+		}
 		sock := c.sock
 		s.Call(s.Thread(), "sclose", "s", nil, func() []interface{} { return []interface{}{"r", sock.Close()} })
 	}
@@ -282,12 +319,22 @@ func runRepLike(t *testing.T, cfg rlCfg, seed int64) sim.Result {
 		}
 		c.ctxs = make([]mangos.Context, len(cfg.Opts))
 		c.pctxs = make([]protocol.Context, len(cfg.Opts))
-		for i := 1; i < len(cfg.Opts); i++ {
+		c.open = func(i int) {
+			if c.ctxs[i] != nil {
+				return
+			}
 			mc, err := c.sock.OpenContext()
 			must(err)
 			c.ctxs[i] = mc
 			c.pctxs[i] = rp.Ctxs[len(rp.Ctxs)-1]
-			setOpts(mc.SetOption, cfg.Opts[i])
+			if !cfg.Lazy {
+				setOpts(mc.SetOption, cfg.Opts[i])
+			} // a context opened later inherits the socket's values (the scenario gives every context the same options)
+		}
+		if !cfg.Lazy {
+			for i := 1; i < len(cfg.Opts); i++ {
+				c.open(i)
+			}
 		}
 		setOpts(c.sock.SetOption, cfg.Opts[0])
 		l, err := c.sock.NewListener(s.Net.Addr("l1"), nil)
@@ -338,6 +385,10 @@ func rlScripted(kind string) []rlCfg {
 		// (the reply is discarded), with and without a send deadline; the socket keeps serving others
 		{Kind: kind, Opts: []rlCtxOpt{d, d}, TTL: 8, SQ: 1, RQ: 8, Steps: []string{"conngated", "req p1 1", "req p1 1", "req p1 1", "recv c0", "send c0", "recv c0", "send c0", "recv c0", "send c0", "drop p1", "conn", "req p2 2", "recv c1", "send c1", "recv c0"}},
 		{Kind: kind, Opts: []rlCtxOpt{{SendExp: 5 * sec}, d}, TTL: 8, SQ: 0, RQ: 8, Steps: []string{"conngated", "req p1 1", "req p1 1", "recv c0", "send c0", "recv c0", "send c0", "adv 1s", "drop p1", "adv 1s", "conn", "req p2 1", "recv c0", "send c0", "adv 10s"}},
+		// a context opened while the socket's own context holds a request starts empty: it has nothing to answer
+		{Kind: kind, Opts: []rlCtxOpt{d, d, d}, TTL: 8, SQ: 2, RQ: 2, Lazy: true, Steps: []string{"conn", "req p1 2", "recv c0", "send c1", "recv c2", "req p1 1", "send c2", "send c0", "send c1", "recv c1"}},
+		// a Send from another goroutine while the context's Recv is waiting: nothing to answer (the last request was given up by that Recv)
+		{Kind: kind, Opts: []rlCtxOpt{d, d}, TTL: 8, SQ: 2, RQ: 2, Steps: []string{"conn", "req p1 1", "recv c1", "recv c1", "send c1", "req p1 2", "send c1", "recv c0", "recv c0", "send c0"}},
 		// receive deadline; context close with pending receive; socket close
 		{Kind: kind, Opts: []rlCtxOpt{{RecvExp: 3 * sec}, d}, TTL: 8, SQ: 2, RQ: 2, Steps: []string{"conn", "recv c0", "recv c1", "adv 2.999999s", "adv 1us", "cclose c1", "recv c1", "send c0", "req p1 1", "recv c0"}},
 	}
@@ -347,6 +398,7 @@ func rlRandom(kind string, rng *rand.Rand) rlCfg {
 	sec := time.Second
 	c := rlCfg{Kind: kind, TTL: []int{1, 2, 3, 8}[rng.Intn(4)], SQ: rng.Intn(3), RQ: 1 + rng.Intn(3)}
 	nctx := 1 + rng.Intn(3)
+	c.Lazy = rng.Intn(2) == 0
 	for i := 0; i < nctx; i++ {
 		o := rlCtxOpt{}
 		if rng.Intn(4) == 0 {
@@ -356,6 +408,12 @@ func rlRandom(kind string, rng *rand.Rand) rlCfg {
 			o.RecvExp = 3 * sec
 		}
 		o.BestEffort = rng.Intn(5) == 0
+		if c.Lazy && i > 0 {
+			o = c.Opts[0] // contexts opened later take the socket's values as they are ...
+			if kind == "rep" {
+				o = rlCtxOpt{} // ... where the pattern hands them down: a REP context starts without deadlines
+			}
+		}
 		c.Opts = append(c.Opts, o)
 	}
 	np := 0
@@ -413,6 +471,12 @@ func rlDeadline(kind string) []rlCfg {
 		out = append(out, rlCfg{Kind: kind, Opts: []rlCtxOpt{o, o}, TTL: 8, SQ: 1, RQ: 2, Steps: []string{
 			"recv c0", "adv " + just, "adv 1us", "conngated", "req p1 1", "req p1 1", "req p1 1", "recv c0", "send c0", "recv c0", "send c0", "recv c1", "send c1",
 			"adv " + just, "adv 1us", "release p1", "req p1 1", "recv c0", "send c0", "adv " + d.String()}})
+	}
+	// the deadline of a Recv that is waiting is not pushed back by a queue length change (RESPONDENT has the option)
+	if kind == "respondent" {
+		o := rlCtxOpt{RecvExp: 2 * time.Second}
+		out = append(out, rlCfg{Kind: kind, Opts: []rlCtxOpt{o, o}, TTL: 8, SQ: 1, RQ: 2, Steps: []string{
+			"conn", "recv c0", "recv c1", "adv 1s", "rq 3", "adv 0.999999s", "adv 1us", "req p1 1", "recv c0", "adv 3s"}})
 	}
 	// best effort together with a send deadline: best effort wins - the reply is dropped at once, not after the deadline
 	out = append(out, rlCfg{Kind: kind, Opts: []rlCtxOpt{{BestEffort: true, SendExp: 2 * time.Second}}, TTL: 8, SQ: 1, RQ: 4, Steps: []string{
